@@ -688,19 +688,27 @@ def find_simple_method(src: str, name: str):
     if any(x.text == ";" for x in btoks) or any(x.kind == "ident" and x.text in ("let", "return", "loop", "while", "for") for x in btoks):
         return None
     expr = " ".join(l.strip() for l in body.strip().split("\n") if not l.strip().startswith("//"))
-    # `Self` inside the helper refers to the helper's own impl type
+    return _subst_self_type(src, toks[fn_kw].start, expr)
+
+
+def _subst_self_type(src: str, fn_off: int, expr: str) -> str:
+    """`Self` inside a helper refers to the helper's own impl type: replace it by that type's name when the helper
+    is inside an impl block (the last `impl ... {` whose braces enclose fn_off)."""
+    toks = lex(src); m = match_brackets(toks)
     hdr = None
     for mm in re.finditer(r"\bimpl\b([^{;]*)\{", src):
-        if mm.end() <= toks[fn_kw].start:
-            hdr = mm.group(1)
-    if hdr is not None:
-        ty = hdr.split(" for ")[-1].strip()
-        ty = re.sub(r"^<[^>]*>\s*", "", ty)            # impl<T> Foo<T>  ->  Foo<T>
-        tyname = re.match(r"[\w:]+", ty)
-        if tyname:
-            etoks = lex(expr)
-            expr = "".join(tyname.group(0) if (x.kind == "ident" and x.text == "Self") else x.text for x in etoks)
-    return expr
+        if mm.end() <= fn_off:
+            bo = next((i for i, t in enumerate(toks) if t.start == mm.end() - 1), None)
+            if bo is not None and bo in m and toks[m[bo]].start > fn_off:
+                hdr = mm.group(1)
+    if hdr is None:
+        return expr
+    ty = hdr.split(" for ")[-1].strip()
+    ty = re.sub(r"^<[^>]*>\s*", "", ty)            # impl<T> Foo<T>  ->  Foo<T>
+    tyname = re.match(r"[\w:]+", ty)
+    if not tyname:
+        return expr
+    return "".join(tyname.group(0) if (x.kind == "ident" and x.text == "Self") else x.text for x in lex(expr))
 
 
 def find_simple_fn(src: str, name: str):
@@ -729,19 +737,32 @@ def find_simple_fn(src: str, name: str):
     if any(x.text == ";" for x in btoks) or any(x.kind == "ident" and x.text in ("let", "return", "loop", "while", "for") for x in btoks):
         return None
     expr = " ".join(l.strip() for l in body.strip().split("\n") if not l.strip().startswith("//"))
+    expr = _subst_self_type(src, toks[fn_kw].start, expr)
     return params, expr
 
 
 def r20b_inline_fns(src, log, fn_map):
     """R20 for free functions: `name(A, B)` -> `(EXPR[a := (A), b := (B)])`"""
     n = 0
-    for name, (params, expr) in fn_map.items():
+    for name, val in fn_map.items():
+        params, expr = val[0], val[1]
+        assoc = len(val) > 2 and val[2]
         while True:
             toks = lex(src); m = match_brackets(toks); s = sig(toks)
             hit = None
             for k, i in enumerate(s):
-                if toks[i].kind == "ident" and toks[i].text == name and k + 1 < len(s) and toks[s[k + 1]].text == "(" \
-                        and (k == 0 or toks[s[k - 1]].text not in (".", ":", "fn")):
+                start_tok = i
+                if assoc:
+                    # `Self::name(` / `Type::name(` (associated helper function without self parameter)
+                    ok = toks[i].kind == "ident" and toks[i].text == name and k + 1 < len(s) and toks[s[k + 1]].text == "(" \
+                        and k >= 3 and toks[s[k - 1]].text == ":" and toks[s[k - 2]].text == ":" and toks[s[k - 3]].kind == "ident" \
+                        and (k < 4 or toks[s[k - 4]].text != ":")
+                    if ok:
+                        start_tok = s[k - 3]
+                else:
+                    ok = toks[i].kind == "ident" and toks[i].text == name and k + 1 < len(s) and toks[s[k + 1]].text == "(" \
+                        and (k == 0 or toks[s[k - 1]].text not in (".", ":", "fn"))
+                if ok:
                     c = m[s[k + 1]]
                     args, depth, cur = [], 0, toks[s[k + 1]].end
                     for x in range(s[k + 1] + 1, c):
@@ -759,7 +780,7 @@ def r20b_inline_fns(src, log, fn_map):
                         continue
                     sub = dict(zip(params, args))
                     e2 = "".join(("(" + sub[x.text] + ")") if (x.kind == "ident" and x.text in sub) else x.text for x in lex(expr))
-                    hit = (toks[i].start, toks[c].end, "(" + e2 + ")")
+                    hit = (toks[start_tok].start, toks[c].end, "(" + e2 + ")")
                     break
             if hit is None:
                 break
@@ -1639,6 +1660,11 @@ def _gen_function(kv, sections, repo, res: UnitResult, variant) -> list:
         if kv.get("vis"):
             sig_text = re.sub(r"^\s*(pub(\([^)]*\))?\s+)?", kv["vis"] + " ", sig_text, count=1)
     # --- body rules
+    # function-local `const X: &T = ..;` needs an explicit lifetime in Verus (same normalisation as find_simple_const)
+    body2 = re.sub(r"(\bconst\s+[A-Z][A-Z0-9_]*\s*:\s*)&\s*(?!')", r"\1&'static ", body)
+    if body2 != body:
+        log["R14.local_const_lifetime"] = len(re.findall(r"&'static", body2)) - len(re.findall(r"&'static", body))
+        body = body2
     if variant.get("inline"):
         body = r20_inline(body, log, variant["inline"])
     if variant.get("inline_fns"):
